@@ -179,6 +179,8 @@ func timeoutOp(c *Ctx, op string) {
 						malformed = true
 					} else if _, perr := strconv.ParseInt(num, 10, 64); perr != nil {
 						malformed = true // non-decimal number
+					} else if strings.HasPrefix(num, "-") && strings.Trim(num, "-0") != "" {
+						malformed = true // a negative duration is not a decimal count
 					} else if isDigits(num) && len(strings.TrimLeft(num, "0")) > 8 {
 						malformed = true // beyond the digit limit
 					}
